@@ -638,6 +638,7 @@ class LifeRun(Base):
         self.last_good = content
         self.expected = None  # list of rules in effect
         self.persisted = None
+        self.faults_seen = 0
         self.origin = None
         self.touched = []
         self.probe_rules = list(config.get("probe_rules", []))
@@ -761,6 +762,8 @@ class LifeRun(Base):
         stats = self.stats
         fault = ev.get("fault")
         transient = bool(ev.get("transient"))
+        if fault is not None:
+            self.faults_seen += 1
         self.net.begin_upgrade(fault)
         self.disk.begin_upgrade(fault)
         path = self.node.data_path
@@ -792,7 +795,7 @@ class LifeRun(Base):
             # volatile state is gone; the process restarts from the durable file
             self.boot("restart_after_crash")
             self.state("crash")
-            return
+            return outcome
         if outcome == "ok":
             stats.probe("upgrade_ok_transient" if transient else "upgrade_ok_persisted")
             if served is None:
@@ -828,8 +831,18 @@ class LifeRun(Base):
             if not transient:
                 self.persisted = None
         self.state("upgrade_" + outcome.split(":")[0])
+        if fault is None and outcome != "ok":
+            # outside C08 (which constrains the answers, not upgrade's success)
+            stats.probe("NOTE_fault_free_upgrade_failed")
+        return outcome
 
     def finish(self):
+        # bounded recovery once faults stop: one fault-free upgrade succeeds and
+        # takes effect (O2 is checked inside); reported as a probe / note
+        if self.faults_seen:
+            outcome = self.upgrade({"op": "upgrade", "transient": True, "fault": None})
+            if outcome == "ok":
+                self.stats.probe("recovered_after_faults")
         # one more restart: whatever is durable must boot or be recoverable,
         # and the restarted process must agree with the file it loaded
         self.stats.event("OP|final_restart")
@@ -1059,6 +1072,7 @@ PROBES = [
     "crash_lost_interior_block",
     "restart_ok",
     "restart_bootfail",
+    "recovered_after_faults",
 ]
 RULE = (
     "one case = either a seeded history of SuffixTrie.add calls (<= 4 rules quick / <= 6 thorough, normal / wildcard / "
